@@ -326,6 +326,58 @@ def anchors_font(rng):
             "markOpts": {"groupMarkClasses": rng.random() < 0.3}}
 
 
+INDIC_ANCHORS = ["top", "topleft", "topright", "candra", "bindu", "candrabindu", "imatra", "bottom", "bottomleft", "bottomright",
+                 "nukta", "bottomfoo", "halant"]
+
+
+def indic_anchors_font(rng):
+    """Devanagari font whose bases, marks AND ligature components use every anchor name the writer routes by name to
+    abvm / blwm (plus names it does not know): numbered ligature anchors 'nukta_1', 'candra_2', 'bottomleft_1' ..."""
+    gl = [("ka-deva", 0x915), ("kha-deva", 0x916), ("ssa-deva", 0x937), ("anusvara-deva", 0x902), ("nukta-deva", 0x93C),
+          ("vsignu-deva", 0x941), ("candrabindu-deva", 0x901), ("k_ssa-deva", None), ("kh_ssa-deva", None), ("ka-deva.alt", None)]
+    marks = ["anusvara-deva", "nukta-deva", "vsignu-deva", "candrabindu-deva"]
+    ligs = ["k_ssa-deva", "kh_ssa-deva"]
+    names = [n for n, _ in gl]
+    classes = rng.sample(INDIC_ANCHORS, rng.randint(2, 5))
+    anchors = {n: [] for n in names}
+    for i, n in enumerate(marks):
+        # every class has at least one mark (round-robin), a mark may attach through two classes
+        own = [classes[j] for j in range(len(classes)) if j % len(marks) == i]
+        if rng.random() < 0.4:
+            own = sorted(set(own + [rng.choice(classes)]))
+        for c in own:
+            anchors[n].append(("_" + c, q4(rng, -100, 100), q4(rng, 300, 600)))
+        if rng.random() < 0.4:
+            anchors[n].append((rng.choice(classes), q4(rng, -100, 100), q4(rng, 600, 800)))
+    for n in ligs:
+        for c in classes:
+            if rng.random() < 0.85:
+                for k in (1, 2):
+                    if rng.random() < 0.9:
+                        anchors[n].append((f"{c}_{k}", q4(rng, 0, 900), q4(rng, -100, 800)))
+    for n in names:
+        if n not in marks and n not in ligs:
+            for c in classes:
+                if rng.random() < 0.7:
+                    anchors[n].append((c, q4(rng, 0, 500), q4(rng, -100, 800)))
+    glyphs = {}
+    for n, cp in gl:
+        glyphs[n] = {"cs": [box()], "comps": [], "anchors": [{"n": an, "x": x * PS // 4, "y": y * PS // 4} for an, x, y in anchors[n]],
+                     "w": (0 if n in marks else rng.randint(300, 700)) * PS, "h": 0, "u": [cp] if cp else []}
+    lib = {}
+    has_cats = rng.random() < 0.5
+    if has_cats:
+        lib["public.openTypeCategories"] = {n: ("mark" if n in marks else "ligature" if n in ligs else "base") for n in names}
+    fea = ["languagesystem DFLT dflt;", "languagesystem dev2 dflt;"] if rng.random() < 0.7 else []
+    fea.append("feature ss01 { sub ka-deva by ka-deva.alt; } ss01;")
+    fea.append("feature akhn { sub ka-deva ssa-deva by k_ssa-deva; sub kha-deva ssa-deva by kh_ssa-deva; } akhn;")
+    ufo = {"glyphs": glyphs, "order": names, "glyphNames": names,
+           "info": {"unitsPerEm": 1000, "ascender": 800, "descender": -200, "familyName": "IndicMarkTest", "styleName": "Regular"},
+           "fea": "\n".join(fea), "lib": lib}
+    return {"ufo": ufo, "q": rng.choice([1, 1, 5]), "anchorsAbs": anchors, "hasCats": has_cats,
+            "markOpts": {"groupMarkClasses": rng.random() < 0.3}}
+
+
 def gdefcurs_font(rng):
     """Font with categories (incl. invalid values / non-exported glyphs), caret anchors, cursive anchors."""
     gl = [("a", 0x61), ("b", 0x62), ("f_i", None), ("f_f_i", None), ("acutecomb", 0x301), ("period", 0x2E),
